@@ -270,29 +270,18 @@ fn member(orig: &'static str, s: usize, e: usize, os: usize, oe: Option<usize>) 
     MemberMapping { startline: s, endline: e, original_class: None, original_file: None, original: orig, original_startline: os, original_endline: oe }
 }
 
-const NAMES: [&str; 3] = ["f", "g", "h"];
-
-fn pick_name() -> &'static str {
-    let k: u8 = kani::any();
-    kani::assume(k < 3);
-    NAMES[k as usize]
-}
-
 /// C04 (mapper): remap_method answers iff the class is known, the method has
 /// >=1 entry and all entries carry the same original name; and when it answers
-/// every line-remapped frame carries that name.
-#[kani::proof]
-#[kani::stub(crate::mapper::extract_class_name, extract_class_name_stub)]
-#[kani::unwind(8)]
-fn c04_mapper_remap_method() {
-    // class "a" -> "A" with method "m" having n (1..=3) entries with symbolic original names
-    let n: usize = kani::any();
-    kani::assume(n >= 1 && n <= 3);
-    let names = [pick_name(), pick_name(), pick_name()];
-    let mut all = Vec::with_capacity(3);
+/// every line-remapped frame carries that name. `names` is concrete per
+/// harness (symbolic string pointers are intractable); all numbers symbolic.
+fn c04_mapper<const N: usize>(names: [&'static str; N]) {
+    let mut all = Vec::with_capacity(N);
     let mut i = 0;
-    while i < n {
-        all.push(member(names[i], kani::any(), kani::any(), kani::any(), None));
+    while i < N {
+        let m = member(names[i], kani::any(), kani::any(), kani::any(), if kani::any() { Some(kani::any()) } else { None });
+        kani::assume(builder_invariant(&m));
+        kani::assume(m.original_startline < 0xffff_ffff && m.startline < 0xffff_ffff);
+        all.push(m);
         i += 1;
     }
     let mut members = HashMap::new();
@@ -304,24 +293,27 @@ fn c04_mapper_remap_method() {
     let got = mapper.remap_method("a", "m");
     let mut agree = true;
     i = 1;
-    while i < n {
+    while i < N {
         if !str_eq(names[i], names[0]) {
             agree = false;
         }
         i += 1;
     }
     if agree {
-        let (c, m) = got.expect("C04: unambiguous method not answered");
+        let (c, m) = match got {
+            Some(x) => x,
+            None => panic!("C04: unambiguous method not answered"),
+        };
         assert!(str_eq(c, "A") && str_eq(m, names[0]), "C04: wrong answer");
         // every frame of line-based remapping carries that method name
         let line: usize = kani::any();
         let frame = StackFrame::new("a", "m", line);
         let mut it = mapper.remap_frame(&frame);
         let mut k = 0;
-        while k < 3 {
+        while k < N {
             if let Some(f) = it.next() {
                 assert!(str_eq(f.method, m), "C04: frame disagrees with remap_method");
-                assert!(str_eq(f.class, "A"));
+                assert!(str_eq(f.class, "A"), "C04: frame class");
             }
             k += 1;
         }
@@ -330,18 +322,32 @@ fn c04_mapper_remap_method() {
     }
     assert!(mapper.remap_method("a", "x").is_none(), "C04: unknown method answered");
     assert!(mapper.remap_method("b", "m").is_none(), "C04: unknown class answered");
-    assert!(mapper.remap_class("a") == Some("A"));
-    assert!(mapper.remap_class("A").is_none() && mapper.remap_class("").is_none() && mapper.remap_class("aa").is_none());
-    kani::cover!(agree && n == 3);
-    kani::cover!(!agree && n == 2);
+    assert!(mapper.remap_method("a", "").is_none() && mapper.remap_method("a", "mm").is_none(), "C04: near-miss method answered");
+    assert!(mapper.remap_class("a") == Some("A"), "C04: known class");
+    assert!(mapper.remap_class("A").is_none() && mapper.remap_class("").is_none() && mapper.remap_class("aa").is_none(), "C04: near-miss class answered");
+    assert!(mapper.remap_frame(&StackFrame::new("b", "m", 1)).next().is_none(), "C01: unknown class yields frames");
+    assert!(mapper.remap_frame(&StackFrame::new("a", "x", 1)).next().is_none(), "C01: unknown method yields frames");
     core::mem::forget(mapper);
 }
 
-/// C08 (mapper): typed remapping keeps depth, every throwable and every frame.
-#[kani::proof]
-#[kani::stub(crate::mapper::extract_class_name, extract_class_name_stub)]
-#[kani::unwind(8)]
-fn c08_mapper_typed() {
+macro_rules! c04_m {
+    ($name:ident, $n:expr, $names:expr) => {
+        #[kani::proof]
+        #[kani::stub(crate::mapper::extract_class_name, extract_class_name_stub)]
+        #[kani::unwind(6)]
+        fn $name() {
+            c04_mapper::<$n>($names);
+        }
+    };
+}
+c04_m!(c04_mapper_f, 1, ["f"]);
+c04_m!(c04_mapper_ff, 2, ["f", "f"]);
+c04_m!(c04_mapper_fg, 2, ["f", "g"]);
+c04_m!(c04_mapper_fff, 3, ["f", "f", "f"]);
+c04_m!(c04_mapper_ffg, 3, ["f", "f", "g"]);
+c04_m!(c04_mapper_gff, 3, ["g", "f", "f"]);
+
+fn c08_mapper_fixture() -> ProguardMapper<'static> {
     let mut all = Vec::with_capacity(2);
     all.push(member("f", 1, 5, 10, Some(14)));
     all.push(member("g", 3, 8, 20, None));
@@ -349,76 +355,172 @@ fn c08_mapper_typed() {
     members.insert("m", ClassMembers { all_mappings: all, mappings_by_params: Default::default() });
     let mut classes = HashMap::new();
     classes.insert("a", ClassMapping { original: "A", obfuscated: "a", file_name: None, members });
-    let mapper = ProguardMapper { classes };
+    ProguardMapper { classes }
+}
 
-    let known_exc: bool = kani::any();
-    let has_exc: bool = kani::any();
-    let has_msg: bool = kani::any();
-    let exc = if has_exc {
-        Some(Throwable { class: if known_exc { "a" } else { "zz" }, message: if has_msg { Some("boom") } else { None } })
-    } else {
-        None
+/// C08 (mapper), throwables and cause chain: typed remapping keeps the depth and
+/// every throwable (remapped when the class is known, unchanged otherwise).
+/// EXC/C1/C2: 0 = absent, 1 = class known to the mapping, 2 = unknown class.
+/// The message presence is symbolic.
+fn c08_mapper_chain<const EXC: u8, const C1: u8, const C2: u8>() {
+    let mapper = c08_mapper_fixture();
+    let msg: Option<&'static str> = if kani::any() { Some("b") } else { None };
+    let mk = |k: u8, unknown: &'static str| match k {
+        0 => None,
+        1 => Some(Throwable { class: "a", message: msg }),
+        _ => Some(Throwable { class: unknown, message: msg }),
     };
-    let l0: usize = kani::any();
-    let l1: usize = kani::any();
-    let known_f1: bool = kani::any();
-    let frames = vec![
-        StackFrame::with_file("a", "m", l0, "S.java"),
-        StackFrame::with_file(if known_f1 { "a" } else { "q" }, "m", l1, "T.java"),
-    ];
-    let has_cause: bool = kani::any();
-    let cause_known: bool = kani::any();
-    let trace = StackTrace {
-        exception: exc.clone(),
-        frames,
-        cause: if has_cause {
-            Some(Box::new(StackTrace {
-                exception: Some(Throwable { class: if cause_known { "a" } else { "yy" }, message: None }),
-                frames: vec![],
-                cause: None,
-            }))
-        } else {
-            None
-        },
-    };
+    let level2 = if C2 != 0 { Some(Box::new(StackTrace { exception: mk(C2, "y2"), frames: vec![], cause: None })) } else { None };
+    let level1 = if C1 != 0 { Some(Box::new(StackTrace { exception: mk(C1, "y1"), frames: vec![], cause: level2 })) } else { None };
+    let trace = StackTrace { exception: mk(EXC, "zz"), frames: vec![], cause: level1 };
     let out = mapper.remap_stacktrace_typed(&trace);
-    // throwable: remapped when known, kept unchanged otherwise - never dropped
-    match (&exc, &out.exception) {
-        (None, None) => {}
-        (Some(i), Some(o)) => {
-            assert!(str_eq(o.class, if known_exc { "A" } else { i.class }), "C08: throwable class");
-            assert!(o.message == i.message, "C08: message lost");
+
+    let check = |k: u8, unknown: &str, o: &Option<Throwable>| match (k, o) {
+        (0, None) => {}
+        (0, Some(_)) => panic!("C08: throwable invented"),
+        (_, None) => panic!("C08: throwable dropped by typed remapping"),
+        (k, Some(o)) => {
+            assert!(str_eq(o.class, if k == 1 { "A" } else { unknown }), "C08: throwable class");
+            assert!(o.message == msg, "C08: message lost");
         }
-        (Some(_), None) => panic!("C08: throwable dropped by typed remapping"),
-        (None, Some(_)) => panic!("C08: throwable invented"),
-    }
-    // depth
-    assert!(out.cause.is_some() == has_cause, "C08: cause chain depth changed");
-    if let Some(c) = &out.cause {
-        match &c.exception {
-            Some(o) => assert!(str_eq(o.class, if cause_known { "A" } else { "yy" }), "C08: cause class"),
-            None => panic!("C08: cause throwable dropped by typed remapping"),
+    };
+    check(EXC, "zz", &out.exception);
+    assert!(out.frames.len() == 0, "C08: frames invented");
+    assert!(out.cause.is_some() == (C1 != 0), "C08: cause chain depth changed");
+    if let Some(c1) = &out.cause {
+        check(C1, "y1", &c1.exception);
+        assert!(c1.cause.is_some() == (C2 != 0), "C08: cause chain depth changed (level 2)");
+        if let Some(c2) = &c1.cause {
+            check(C2, "y2", &c2.exception);
+            assert!(c2.cause.is_none(), "C08: cause chain grew");
         }
-        assert!(c.frames.len() == 0 && c.cause.is_none());
     }
-    // frames: each replaced by >=1 remapped frames or kept
-    let n0 = (if l0 >= 1 && l0 <= 5 { 1 } else { 0 }) + (if l0 >= 3 && l0 <= 8 { 1 } else { 0 });
-    let n1 = if known_f1 { (if l1 >= 1 && l1 <= 5 { 1 } else { 0 }) + (if l1 >= 3 && l1 <= 8 { 1 } else { 0 }) } else { 0 };
-    let e0 = if n0 == 0 { 1 } else { n0 };
-    let e1 = if n1 == 0 { 1 } else { n1 };
-    assert!(out.frames.len() == e0 + e1, "C08: frame count");
-    if n0 == 0 {
-        assert!(out.frames[0] == trace.frames[0], "C08: unresolved frame not kept unchanged");
-    } else {
-        assert!(str_eq(out.frames[0].class, "A"));
-    }
-    if n1 == 0 {
-        assert!(out.frames[e0] == trace.frames[1], "C08: unresolved frame not kept unchanged");
-    }
-    kani::cover!(n0 == 2 && n1 == 0);
-    kani::cover!(has_exc && !known_exc);
     core::mem::forget(out);
     core::mem::forget(trace);
     core::mem::forget(mapper);
 }
 
+/// C08 (mapper), frames: a frame is replaced by its remapped frames (>=1) or
+/// kept unchanged; frames before and after it are untouched. One symbolic line.
+///
+/// The line is symbolic inside one of four regimes that together cover every
+/// usize (REGIME 0: l==0 or l>8 -> no entry; 1: 1..=2 -> f; 2: 3..=5 -> f,g;
+/// 3: 6..=8 -> g): a symbolic *number* of pushed frames makes `Vec::extend`'s
+/// growth path explode under CBMC (measured: >300 s), a symbolic line inside a
+/// regime does not.
+fn c08_mapper_frames<const KNOWN: bool, const REGIME: u8>() {
+    let mapper = c08_mapper_fixture();
+    let l: usize = kani::any();
+    match REGIME {
+        0 => kani::assume(l == 0 || l > 8),
+        1 => kani::assume(l >= 1 && l <= 2),
+        2 => kani::assume(l >= 3 && l <= 5),
+        _ => kani::assume(l >= 6 && l <= 8),
+    }
+    let frames = vec![
+        StackFrame::with_file("q", "m", 7, "U"),
+        StackFrame::with_file(if KNOWN { "a" } else { "b" }, "m", l, "S"),
+        StackFrame::with_file("a", "zz", 2, "V"),
+    ];
+    let trace = StackTrace { exception: None, frames, cause: None };
+    let out = mapper.remap_stacktrace_typed(&trace);
+    let n = if KNOWN { (if l >= 1 && l <= 5 { 1 } else { 0 }) + (if l >= 3 && l <= 8 { 1 } else { 0 }) } else { 0 };
+    let e = if n == 0 { 1 } else { n };
+    assert!(out.exception.is_none() && out.cause.is_none());
+    assert!(out.frames.len() == 2 + e, "C08: frame count");
+    assert!(out.frames[0] == trace.frames[0], "C08: unresolved frame (unknown class) not kept unchanged");
+    assert!(out.frames[1 + e] == trace.frames[2], "C08: unresolved frame (unknown method) not kept unchanged");
+    if n == 0 {
+        assert!(out.frames[1] == trace.frames[1], "C08: unresolved frame not kept unchanged");
+    } else {
+        assert!(str_eq(out.frames[1].class, "A"), "C08: remapped frame class");
+        let first_f = l >= 1 && l <= 5;
+        assert!(str_eq(out.frames[1].method, if first_f { "f" } else { "g" }), "C08: remapped frame method");
+        if n == 2 {
+            assert!(str_eq(out.frames[2].method, "g"), "C08: second remapped frame");
+        }
+    }
+    kani::cover!(l == usize::MAX || l == 2 || l == 5 || l == 8, "regime boundary reached");
+    core::mem::forget(out);
+    core::mem::forget(trace);
+    core::mem::forget(mapper);
+}
+
+macro_rules! c08_chain {
+    ($name:ident, $e:expr, $c1:expr, $c2:expr) => {
+        #[kani::proof]
+        #[kani::stub(crate::mapper::extract_class_name, extract_class_name_stub)]
+        #[kani::unwind(4)]
+        fn $name() {
+            c08_mapper_chain::<$e, $c1, $c2>();
+        }
+    };
+}
+c08_chain!(c08_mapper_chain_none, 0, 0, 0);
+c08_chain!(c08_mapper_chain_known, 1, 0, 0);
+c08_chain!(c08_mapper_chain_unknown, 2, 0, 0);
+c08_chain!(c08_mapper_chain_known_unknown_known, 1, 2, 1);
+c08_chain!(c08_mapper_chain_unknown_known_unknown, 2, 1, 2);
+c08_chain!(c08_mapper_chain_none_unknown, 0, 2, 0);
+
+macro_rules! c08_frames {
+    ($name:ident, $k:expr, $r:expr) => {
+        #[kani::proof]
+        #[kani::stub(crate::mapper::extract_class_name, extract_class_name_stub)]
+        #[kani::unwind(4)]
+        fn $name() {
+            c08_mapper_frames::<$k, $r>();
+        }
+    };
+}
+c08_frames!(c08_mapper_frames_unknown_r0, false, 0);
+c08_frames!(c08_mapper_frames_unknown_r2, false, 2);
+
+/// C08 (mapper), smallest frame shape: one frame, one mapping entry (1..=5 -> f),
+/// symbolic line: replaced by exactly its remapped frame, or kept unchanged.
+#[kani::proof]
+#[kani::stub(crate::mapper::extract_class_name, extract_class_name_stub)]
+#[kani::unwind(4)]
+fn c08_mapper_one_frame() {
+    c08_mapper_small::<false>();
+}
+
+/// Same with an unresolvable frame (unknown class) in front of it.
+#[kani::proof]
+#[kani::stub(crate::mapper::extract_class_name, extract_class_name_stub)]
+#[kani::unwind(4)]
+fn c08_mapper_two_frames() {
+    c08_mapper_small::<true>();
+}
+
+fn c08_mapper_small<const LEAD: bool>() {
+    let mut all = Vec::with_capacity(1);
+    all.push(member("f", 1, 5, 10, Some(14)));
+    let mut members = HashMap::new();
+    members.insert("m", ClassMembers { all_mappings: all, mappings_by_params: Default::default() });
+    let mut classes = HashMap::new();
+    classes.insert("a", ClassMapping { original: "A", obfuscated: "a", file_name: None, members });
+    let mapper = ProguardMapper { classes };
+    let l: usize = kani::any();
+    let frames = if LEAD {
+        vec![StackFrame::with_file("q", "m", 7, "U"), StackFrame::with_file("a", "m", l, "S")]
+    } else {
+        vec![StackFrame::with_file("a", "m", l, "S")]
+    };
+    let k = if LEAD { 1 } else { 0 };
+    let trace = StackTrace { exception: None, frames, cause: None };
+    let out = mapper.remap_stacktrace_typed(&trace);
+    assert!(out.frames.len() == k + 1, "C08: frame count");
+    if LEAD {
+        assert!(out.frames[0] == trace.frames[0], "C08: unresolved leading frame not kept unchanged");
+    }
+    if l >= 1 && l <= 5 {
+        assert!(str_eq(out.frames[k].class, "A") && str_eq(out.frames[k].method, "f"), "C08: remapped frame");
+        assert!(out.frames[k].line == 10 + l - 1, "C08: remapped line");
+    } else {
+        assert!(out.frames[k] == trace.frames[k], "C08: unresolved frame not kept unchanged");
+    }
+    core::mem::forget(out);
+    core::mem::forget(trace);
+    core::mem::forget(mapper);
+}
